@@ -28,6 +28,9 @@ def run(ctx):
     B.b1_permutation_convention(ctx, only_sibling=True)
     B.b4_matching_complete(ctx, classes=(("ParallelSpecFinder", "_find"),))
     B.b8_two_sided_acceptance(ctx)
+    # "isomorphic to each other" is judged by the matcher: it must read specifications the way they are built
+    B.b7_equivalence_steps(ctx)
+    ctx.floor("B7", 6)
     ctx.floor("B1", 1)
     ctx.floor("B4", 3)
     ctx.floor("B8", 2)
